@@ -175,6 +175,19 @@ CLAIMED["C17"] = dict(
          "/repo (f27f1a9, 4d01a10), one is a known finding (crop_dim open end within eps of a coordinate).",
     technique=TECH + "; assumed xarray/numpy contracts; bounded stand-in for double rounding",
 )
+CLAIMED["C20"] = dict(
+    level="proof",
+    text="Relative to the rasterio / xarray contracts: the real rasterize body rejects a value list whose length differs from the "
+         "geometry list (two-sided), broadcasts a scalar, and returns an array with dims (xdim, ydim) carrying the template's own "
+         "coordinates for BOTH template dimension orders and any size -- the out_shape handed to rasterio must be (len y, len x) or "
+         "the xarray constructor raises, which is the obligation `no CoordinateValidationError` (failed on the original tree for "
+         "(time, frequency) templates; fixed). Lemma: with integer index-space corners the cell-centre rule gives bins [i0, i1).",
+    note="Which cells are marked (centre inside the shape mapped to bin indices, overwrite order, fill, all_touched) is rasterio/GDAL "
+         "behaviour: decided by the bounded stand-in raster_templates only (templates up to 8x8, both orders, boxes on/off edges, "
+         "polygons, lists of 3), which also checks the assumed contract. The template's contents are never read (frame: no read of "
+         "array.data on any executed path).",
+    technique=TECH + "; assumed rasterio/xarray contracts; bounded stand-in for the burn rule",
+)
 ALL = [f"C{n:02d}" for n in range(1, 21)]
 NOT_APPLICABLE = {p: "check not built yet in this session (work in progress; see DESIGN.md section 12 build order)"
                   for p in ALL if p not in CLAIMED}
